@@ -51,6 +51,12 @@ def run_impl(case):
     slide = _slide()
     gf = slide.shapes.add_table(rows, cols, 0, 0, 1000 * cols, 500 * rows)
     tbl = gf.table
+    import zlib
+    if zlib.crc32(repr(case).encode()) % 4 == 0:
+        # a:tblPr is optional: tables of other producers may start with a:tblGrid
+        t_ = tbl._tbl
+        if t_.tblPr is not None:
+            t_.remove(t_.tblPr)
     fails = []
     for (r, c), ps in texts:
         cell = tbl.cell(r, c)
